@@ -451,8 +451,16 @@ func verifStageCase(tmp string, caseNo int, ops []vsOp) string {
 			now := time.Now().UTC()
 			midnight := time.Date(now.Year(), now.Month(), now.Day(), 0, 0, 0, 0, time.UTC).Add(24 * time.Hour)
 			old := now.Add(-48 * time.Hour).Add(midnight.Sub(now) / 2)
+			// (which of the two was written last stays as it is: a part cut off mid-stream leaves the partial
+			// younger than its companion)
+			oldCmp := old
+			if pi, err := os.Stat(filepath.Join(e.stageDir, op.name+partExt)); err == nil {
+				if ci, err := os.Stat(filepath.Join(e.stageDir, op.name+compExt)); err == nil {
+					oldCmp = old.Add(ci.ModTime().Sub(pi.ModTime()))
+				}
+			}
 			os.Chtimes(filepath.Join(e.stageDir, op.name+partExt), old, old)
-			os.Chtimes(filepath.Join(e.stageDir, op.name+compExt), old, old)
+			os.Chtimes(filepath.Join(e.stageDir, op.name+compExt), oldCmp, oldCmp)
 			w.WriteString(" -")
 		case "AA":
 			// op.num seconds pass (a multiple of a day): everything the receiver remembers or has
@@ -792,6 +800,45 @@ func verifStageMatrix2(r *gen.Rand, kind, variant int) []vsOp {
 		recv(f, 0, len(f.content))
 	}
 	names := [][2]string{{"site/data.bin", "site/next.bin"}, {"a", "b"}, {"g.1", "g.2"}, {"d/e/x", "d/y"}}[r.Intn(4)]
+	if sel(17, 1, 18) {
+		// (r) a file whose (sender-side) time lies more than a month back - archive data sent late - is
+		// delivered; days later, after a restart, the same version comes again (variant 1: announced by a
+		// data-recovery request first): the receiver reads its log back a month at most, which covers it
+		F := mk(names[0], "", 4+r.Intn(8))
+		F.time = now - 40*86400 - int64(r.Intn(3000))
+		whole(F)
+		ops = append(ops, vsOp{kind: "ST"}, vsOp{kind: "AA", num: 259200}, vsOp{kind: "RS"})
+		F.time -= 259200
+		if pickN(2) == 1 {
+			ops = append(ops, vsOp{kind: "RQ", parts: []vsPart{part(F, 0, len(F.content))}})
+		}
+		whole(F)
+		ops = append(ops, vsOp{kind: "ST"}, vsOp{kind: "SQ", name: F.name, num: -3600})
+		return ops
+	}
+	if sel(16, 1, 17) {
+		// (q) a NEW version of a name that was delivered before is on its way: one part is received and
+		// recorded, the next one is cut off mid-stream (its bytes are in the partial, the companion was not
+		// updated: the partial is now younger than its companion); the transfer stalls for more than a day,
+		// the cleaner comes by (variant 1: after a restart), then the sender sends the missing part
+		V1 := mk(names[0], "", 4+r.Intn(6))
+		whole(V1)
+		ops = append(ops, vsOp{kind: "ST"})
+		V2 := mk(names[0], "", 9+r.Intn(6))
+		a, b := len(V2.content)/3, 2*len(V2.content)/3
+		prep(V2)
+		recv(V2, 0, a)
+		ops = append(ops, vsOp{kind: "RC", part: part(V2, a, b), data: append([]byte{}, V2.content[a:a+1]...), rerr: true})
+		if pickN(2) == 1 {
+			ops = append(ops, vsOp{kind: "RS"})
+		}
+		ops = append(ops, vsOp{kind: "AG", name: V2.name}, vsOp{kind: "CL"}, vsOp{kind: "SC"})
+		prep(V2)
+		recv(V2, a, b)
+		recv(V2, b, len(V2.content))
+		ops = append(ops, vsOp{kind: "ST"}, vsOp{kind: "SV", name: V2.name, num: -3600, part: vsPart{hash: V2.hash}})
+		return ops
+	}
 	if sel(15, 1, 16) {
 		// (p) the validators have a backlog; version A of a name arrives completely and waits for its hash
 		// check; the source is rewritten and version B of the SAME name arrives completely too (its bytes
@@ -1484,9 +1531,9 @@ func TestVerifStage(t *testing.T) {
 			N = gen.EnvInt("VERIF_STAGE_RANDOM", 5000)
 		}
 		for c := 0; c < N; c++ {
-			if c < 160 {
+			if c < 180 {
 				// every directed scenario 10 times, its main alternatives in turn
-				cases = append(cases, verifStageMatrix2(root.Sub(uint64(c)), c%16, c/16))
+				cases = append(cases, verifStageMatrix2(root.Sub(uint64(c)), c%18, c/18))
 				continue
 			}
 			cases = append(cases, verifStageGen(root.Sub(uint64(c))))
